@@ -22,6 +22,9 @@ import (
 type crossCase struct {
 	X       fg.Flow           `json:"referenced_flow"`
 	A       fg.Flow           `json:"host_flow"`
+	// Lib (optional): a third flow whose processor K0 the host uses through the cross-flow processor reference
+	// `Lib.K0`, next to a processor of its own that has the same key K0 and another parameter
+	Lib *fg.Flow `json:"library_flow,omitempty"`
 	ReqHdr  map[string]string `json:"request_headers"`
 	RespHdr map[string]string `json:"response_headers"`
 }
@@ -112,6 +115,18 @@ func genCross() *rapid.Generator[crossCase] {
 			aExits = append(aExits, g)
 		}
 		c.A.Req = genSide(t, "areq", ak, fg.End{Flow: "Guard", At: "end"}, aExits, ga)
+		if rapid.IntRange(0, 2).Draw(t, "lib") == 0 {
+			lib := fg.Flow{Name: "Lib", URL: "h.com/lib-only", Procs: []fg.Proc{{Key: "K0", Kind: "F", Arg: "x-klib"}},
+				Req:  []fg.Conn{{From: fg.StreamStart(), To: fg.End{Proc: "K0"}}, {From: pEnd("K0", "hit"), To: fg.StreamEnd()}, {From: pEnd("K0", "miss"), To: fg.StreamEnd()}},
+				Resp: []fg.Conn{{From: fg.StreamStart(), To: fg.StreamEnd()}}}
+			c.Lib = &lib
+			// host: entry -> Lib.K0 ; Lib.K0/hit -> first own Filter ; Lib.K0/miss -> own K0 -> first own Filter
+			c.A.Procs = append(c.A.Procs, fg.Proc{Key: "K0", Kind: "F", Arg: "x-kown"})
+			first := c.A.Req[0].To
+			c.A.Req[0].To = fg.End{Proc: "Lib.K0"}
+			c.A.Req = append(c.A.Req, fg.Conn{From: pEnd("Lib.K0", "hit"), To: first}, fg.Conn{From: pEnd("Lib.K0", "miss"), To: fg.End{Proc: "K0"}},
+				fg.Conn{From: pEnd("K0", "hit"), To: first}, fg.Conn{From: pEnd("K0", "miss"), To: first})
+		}
 		toX := fg.End{Flow: "Guard", At: "start"}
 		c.A.Resp = genSide(t, "aresp", sk, fg.StreamStart(), []fg.End{toX, fg.StreamEnd()}, &toX)
 		if ga != nil {
@@ -121,7 +136,11 @@ func genCross() *rapid.Generator[crossCase] {
 			}
 			c.A.Resp = append(c.A.Resp, fg.Conn{From: fg.End{Proc: "GA"}, To: opts[rapid.IntRange(0, len(opts)-1).Draw(t, "ga-cont")]})
 		}
-		for _, p := range append(append([]fg.Proc{}, c.X.Procs...), c.A.Procs...) {
+		all := append(append([]fg.Proc{}, c.X.Procs...), c.A.Procs...)
+		if c.Lib != nil {
+			all = append(all, c.Lib.Procs...)
+		}
+		for _, p := range all {
 			if p.Kind == "F" {
 				if rapid.Bool().Draw(t, "req-"+p.Key) {
 					c.ReqHdr[p.Arg] = "1"
@@ -145,6 +164,14 @@ type crossWalker struct {
 }
 
 func (w *crossWalker) procOf(key string) fg.Proc {
+	if strings.HasPrefix(key, "Lib.") && w.c.Lib != nil {
+		for _, p := range w.c.Lib.Procs {
+			if "Lib."+p.Key == key {
+				p.Key = key
+				return p
+			}
+		}
+	}
 	for _, p := range append(append([]fg.Proc{}, w.c.X.Procs...), w.c.A.Procs...) {
 		if p.Key == key {
 			return p
@@ -202,7 +229,7 @@ func (w *crossWalker) run(at fg.End, ownerIsX bool, request bool) {
 					out = "hit"
 				}
 			}
-			w.events = append(w.events, p.Key)
+			w.events = append(w.events, p.Key[strings.LastIndex(p.Key, ".")+1:])
 			if p.Kind == "G" && request {
 				w.answered = p.Key
 				return
@@ -250,6 +277,11 @@ func runCross(r *ev.Recorder, rec *engine.Recorder, c crossCase) (nontrivial boo
 	}
 	if e := dir.WriteFlow("host.yaml", c.A.YAML()); e != nil {
 		return false, infraErr{e.Error()}
+	}
+	if c.Lib != nil {
+		if e := dir.WriteFlow("lib.yaml", c.Lib.YAML()); e != nil {
+			return false, infraErr{e.Error()}
+		}
 	}
 	s, e := dir.Load()
 	if e != nil {
